@@ -260,6 +260,8 @@ def num_cmp(op, a, b):
     if is_concrete(a) and is_concrete(b):
         return {"==": a == b, "!=": a != b, "<": a < b, "<=": a <= b, ">": a > b, ">=": a >= b}[op]
     a, b = to_z3(a), to_z3(b)
+    if a.eq(b):
+        return op in ("==", "<=", ">=")
     return {"==": a == b, "!=": a != b, "<": a < b, "<=": a <= b, ">": a > b, ">=": a >= b}[op]
 
 
@@ -339,7 +341,7 @@ class Arr:
     own: True when allocated inside the current function (stores allowed).
     """
 
-    def __init__(self, shape, get, kind, *, fn=None, affine=None, own=False, name=None, view_of=None):
+    def __init__(self, shape, get, kind, *, fn=None, affine=None, own=False, name=None, view_of=None, nanmask=None):
         self.shape = tuple(shape)
         self.get = get
         self.kind = kind
@@ -348,6 +350,7 @@ class Arr:
         self.own = own
         self.name = name
         self.view_of = view_of
+        self.nanmask = nanmask      # None, or closure idx -> Bool: element is nan (value then irrelevant)
 
     @property
     def rank(self):
@@ -355,7 +358,7 @@ class Arr:
 
     def with_(self, **kw):
         d = dict(shape=self.shape, get=self.get, kind=self.kind, fn=self.fn, affine=self.affine, own=self.own,
-                 name=self.name, view_of=self.view_of)
+                 name=self.name, view_of=self.view_of, nanmask=self.nanmask)
         d.update(kw)
         shape = d.pop("shape")
         get = d.pop("get")
@@ -476,6 +479,7 @@ class Slc:
 class OptV:
     """A value that is None on some paths: (is_none: Bool term, value)."""
 
-    def __init__(self, is_none, value):
+    def __init__(self, is_none, value, nanlike=False):
         self.is_none = is_none
         self.value = value
+        self.nanlike = nanlike      # True: a float that may be nan (IEEE: arithmetic propagates, comparisons are False)
